@@ -12,8 +12,11 @@ for d in seeded/*/; do
   id=$(basename $d); p=${id%%-*}
   echo "$id" | grep -Eq "$pat" || continue
   props="$p $(python3 -c "import json;print(' '.join(json.load(open('$d/meta.json')).get('also_checked_by',[])))" 2>/dev/null)"
-  if ! git -C $scr apply --check $(realpath $d/patch.diff) 2>/dev/null; then echo "$id $p PATCH-DOES-NOT-APPLY"; continue; fi
-  git -C $scr apply $(realpath $d/patch.diff)
+  pf=$d/patch.diff
+  # a seed written against a tree that a later fix: commit changed is carried over by hand as patch.rebased.diff
+  if ! git -C $scr apply --check $(realpath $pf) 2>/dev/null && [ -f $d/patch.rebased.diff ]; then pf=$d/patch.rebased.diff; fi
+  if ! git -C $scr apply --check $(realpath $pf) 2>/dev/null; then echo "$id $p PATCH-DOES-NOT-APPLY"; continue; fi
+  git -C $scr apply $(realpath $pf)
   v=missed; obl=""
   for q in $props; do
     res=$(/verif/bin/sctpvc check $q --tier quick --repo $scr 2>&1)
